@@ -428,18 +428,26 @@ theorem Inv.remint {v v0 v3 : PV} {caller orig dst amt : Nat} {pays : List (Nat 
     (h0 : v.take caller pays = some v0) (h3 : v0.check orig pays = some v3)
     (hm : merged.amt = amt + paySum pays) (ho : merged.owner = orig) :
     Inv { (v3.inc orig amt).create dst merged with supply := v0.supply + amt } := by
-  obtain ⟨A0, T0, h', rfl⟩ := take_inv pays hI.toA hc h0
-  obtain ⟨A3, t, rfl⟩ := InvA.check (Y := fun _ => 0) A0 h3
-  obtain ⟨A5, T5⟩ := (A3.inc orig amt).create (X' := fun _ => 0) (dst := dst) (a := merged) hd (by
+  obtain ⟨A0, T0, h', e0⟩ := take_inv pays hI.toA hc h0
+  have ea : v0.attrs = v.attrs := by rw [e0]
+  have eu : v0.users = v.users := by rw [e0]
+  have es : v0.supply = v.supply := by rw [e0]
+  rw [← ea] at A0
+  obtain ⟨A3, t, e3⟩ := InvA.check (Y := fun _ => 0) A0 h3
+  have eu3 : v3.users = v0.users := by rw [e3]
+  have T3 : v3.totalHeld = v0.totalHeld := by rw [e3]; rfl
+  obtain ⟨A5, T5⟩ := (A3.inc orig amt).create (X' := fun _ => 0) (dst := dst) (a := merged)
+    (by show dst ∈ v3.users; rw [eu3, eu]; exact hd) (by
     intro o
     rw [ho, hm]
     by_cases h : o = orig
     · subst h; simp only [if_true]; omega
-    · simp only [h, if_false, fun e : orig = o => h e.symm]; omega)
+    · simp only [if_neg h, if_neg (fun e : orig = o => h e.symm)])
   refine (A5.supply _).toInv (fun _ => rfl) ?_
-  show v.supply + amt = _
-  rw [T5, hm, hI.sup, ← T0]
-  show _ = totalHeld { v with hold := h' } + _
+  show v0.supply + amt = ((v3.inc orig amt).create dst merged).totalHeld
+  rw [T5]
+  show _ = v3.totalHeld + _
+  rw [T3, es, hm, hI.sup]
   omega
 
 theorem Inv.remint0 {v v0 v3 : PV} {caller orig dst : Nat} {pays : List (Nat × Nat)} {merged : Attr}
@@ -448,36 +456,40 @@ theorem Inv.remint0 {v v0 v3 : PV} {caller orig dst : Nat} {pays : List (Nat × 
     (hm : merged.amt = paySum pays) (ho : merged.owner = orig) :
     Inv (v3.create dst merged) := by
   have h := hI.remint (amt := 0) hc hd h0 h3 (by omega) ho
-  obtain ⟨_, _, h', rfl⟩ := take_inv pays hI.toA hc h0
-  obtain ⟨_, t, rfl⟩ := InvA.check (Y := fun _ => 0) (by assumption) h3
+  obtain ⟨A0, _, h', e0⟩ := take_inv pays hI.toA hc h0
+  have ea : v0.attrs = v.attrs := by rw [e0]
+  rw [← ea] at A0
+  obtain ⟨_, t, e3⟩ := InvA.check (Y := fun _ => 0) A0 h3
   rw [inc_zero] at h
+  have : v0.supply + 0 = (v3.create dst merged).supply := by rw [e3]; rfl
+  rw [this] at h
   exact h
 
 theorem Inv.exit {v v0 : PV} {caller n a : Nat} {att : Attr}
     (hI : Inv v) (hc : caller ∈ v.users)
     (h0 : v.take caller [(n, a)] = some v0) (hat : v0.attrs n = some att) :
     a ≤ v0.supply ∧ Inv { v0.dec att.owner a with supply := v0.supply - a } := by
-  obtain ⟨A0, T0, h', rfl⟩ := take_inv _ hI.toA hc h0
-  have hat' : v.attrs n = some att := hat
+  obtain ⟨A0, T0, h', e0⟩ := take_inv _ hI.toA hc h0
+  have ea : v0.attrs = v.attrs := by rw [e0]
+  have es : v0.supply = v.supply := by rw [e0]
+  have et : v0.userTotal = v.userTotal := by rw [e0]
+  rw [← ea] at A0
   simp only [paySum, Nat.add_zero] at T0
   have hs := hI.sup
-  refine ⟨by show a ≤ v.supply; omega, ?_⟩
+  refine ⟨by omega, ?_⟩
   refine ((A0.setTotal (X' := fun _ => 0) _ _ ?_)).toInv (fun _ => rfl) ?_
   · intro o
     have h1 := A0.own o
     have h2 := A0.own att.owner
-    simp only [payOwned, hat', Option.map_some, Option.some.injEq, if_true, Nat.zero_add,
+    simp only [payOwned, hat, Option.map_some, Option.some.injEq, if_true, Nat.zero_add,
       Nat.add_zero] at h1 h2
-    show upd v.userTotal att.owner (v.userTotal att.owner - a) o = _
-    have e1 : ({ v with hold := h' } : PV).userTotal o = v.userTotal o := rfl
-    have e2 : ({ v with hold := h' } : PV).userTotal att.owner = v.userTotal att.owner := rfl
-    rw [e1] at h1; rw [e2] at h2
+    show upd v0.userTotal att.owner (v0.userTotal att.owner - a) o = _
     by_cases h : o = att.owner
     · subst h; rw [upd_same]; omega
     · rw [upd_other _ _ h]
       rw [if_neg (fun e => h e.symm)] at h1
       omega
-  · show v.supply - a = totalHeld { v with hold := h' }
+  · show v0.supply - a = v0.totalHeld
     omega
 
 theorem Inv.transfer {v : PV} {src dst n a : Nat} (hI : Inv v) (hs : src ∈ v.users)
